@@ -305,6 +305,29 @@ impl LspServer {
             .unwrap_or(uri)
     }
 
+    /// Name of the file of a URI relative to the workspace folder, with leading `../` for
+    /// files outside the folder (the inverse of `uri` up to normalisation of dot segments).
+    pub fn relative_path(&self, uri: &str) -> String {
+        let inside = self.relative(uri);
+        if inside != uri {
+            return inside.to_owned();
+        }
+        let Some(path) = uri.strip_prefix("file://") else { return uri.to_owned() };
+        let folder = self.folder.display().to_string();
+        let f: Vec<&str> = folder.split('/').filter(|s| !s.is_empty()).collect();
+        let t: Vec<&str> = path.split('/').filter(|s| !s.is_empty()).collect();
+        let mut common = 0;
+        while common < f.len() && common + 1 < t.len() && f[common] == t[common] {
+            common += 1;
+        }
+        let mut out = String::new();
+        for _ in common..f.len() {
+            out.push_str("../");
+        }
+        out.push_str(&t[common..].join("/"));
+        out
+    }
+
     // ----- timing ----------------------------------------------------------------------
 
     /// Wall time since the end of the initialize handshake.
